@@ -111,6 +111,28 @@ theorem imo_ignores_class (c c' : Nat) (k : Kind) (u : Option UserFactors) (hs :
     resolve c k u = resolve c' k u := by
   unfold resolve; simp [hs]
 
+/-- A user's record that names no consumer class holds for every class that is asked for … -/
+theorem user_classless_serves_every_class (cls : Nat) (k : Kind) (t : Ttw) (lhv wtt : Rat) (hs : k.spec = specUSER) :
+    resolve cls k (some ⟨lhv, wtt, [(none, t)]⟩) = some ⟨t, lhv, wtt⟩ := by
+  have h1 : specUSER ≠ specIMO := by decide
+  have h2 : specUSER ≠ specEU := by decide
+  unfold resolve
+  by_cases hc : cls = 0 <;> simp [hs, h1, h2, hc, List.find?, Option.orElse]
+
+/-- … and a row of the class asked for goes before it. -/
+theorem user_class_row_first (cls : Nat) (k : Kind) (t t' : Ttw) (lhv wtt : Rat) (hs : k.spec = specUSER) (hc : cls ≠ 0) :
+    resolve cls k (some ⟨lhv, wtt, [(none, t), (some (effectiveClass cls k.type), t')]⟩) = some ⟨t', lhv, wtt⟩ := by
+  have h1 : specUSER ≠ specIMO := by decide
+  have h2 : specUSER ≠ specEU := by decide
+  unfold resolve
+  simp [hs, h1, h2, hc, List.find?, Option.orElse]
+
+/-- As found, the class-less record was not found once a class was given (the code raised). -/
+theorem user_classless_legacy_refused (cls : Nat) (k : Kind) (t : Ttw) (lhv wtt : Rat) (hc : cls ≠ 0) :
+    resolveUserLegacy cls k ⟨lhv, wtt, [(none, t)]⟩ = none := by
+  unfold resolveUserLegacy
+  simp [hc, List.find?]
+
 /-! ### Facts of the packaged tables (kernel-evaluated on the generated module) -/
 
 /-- Under IMO only the tabulated CO2 factor applies: CH4, N2O and slip are 0 in every row. -/
